@@ -7,13 +7,13 @@ Local Open Scope Z_scope.
 
 (* between two elements: no post data, nothing valid *)
 Definition ready (s : pst) (E : list (list Z)) : Prop :=
-  pelems (pth s) = E /\ rpost (pth s) = [] /\ plen (pth s) = 0 /\ pkeep (pth s) = false /\ valid s = 0.
+  pelems (pth s) = E /\ rpost (pth s) = [] /\ plen (pth s) = 0 /\ (pkeep (pth s) = false /\ pbin (pth s) = false) /\ valid s = 0.
 
 Lemma ready_addch s E c : ready s E -> 0 <= c < 256 ->
   pth (addch s c) = mkPath E [c] 1 (pfirst (pth s)) false true.
 Proof.
-  intros (A & B & C & D & _) Bc. rewrite pth_addch. unfold path_addchar.
-  destruct (pbuf (pth s)); cbn [negb]; rewrite ?B, ?D, A, byte_of_small by lia; reflexivity.
+  intros (A & B & C & (D & N) & _) Bc. rewrite pth_addch. unfold path_addchar.
+  destruct (pbuf (pth s)); cbn [negb]; rewrite ?B, ?D, A, N, byte_of_small by lia; reflexivity.
 Qed.
 
 (* ---- names ---- *)
@@ -121,16 +121,16 @@ Section Elements.
   Lemma path_add_name E J n F K :
     Forall (fun c => name_char StPre c = true) n ->
     exists p1, path_add (mkPath E (J ++ rev n) (len (J ++ rev n)) F K true) (len n) = (0, p1) /\
-               pelems p1 = E ++ [n] /\ pbuf p1 = true.
+               pelems p1 = E ++ [n] /\ bufok p1.
   Proof.
-    intros NC. unfold path_add. cbn [pbuf negb plen pelems].
+    intros NC. unfold path_add. cbn [pbuf negb plen pelems pbin].
     assert (L : len n <= len (J ++ rev n)) by (unfold len; rewrite app_length, rev_length; lia).
     pose proof (len_nonneg n). zb. cbn [orb].
-    rewrite firstn_ppost, (no_sep n NC). eexists. split; [reflexivity|]. split; reflexivity.
+    rewrite firstn_ppost, (no_sep n NC). eexists. split; [reflexivity|]. split; [reflexivity|split; reflexivity].
   Qed.
 
-  Lemma invalidate_buf p : pbuf p = true -> path_invalidate p = mkPath (pelems p) [] 0 (pfirst p) false true.
-  Proof. intros B. unfold path_invalidate. now rewrite B. Qed.
+  Lemma invalidate_buf p : bufok p -> path_invalidate p = mkPath (pelems p) [] 0 (pfirst p) false true.
+  Proof. intros [B N]. unfold path_invalidate. now rewrite B, N. Qed.
 
   (* ---- name = value line ---- *)
   Lemma option_line d n v rest s E :
@@ -138,7 +138,7 @@ Section Elements.
     exists s',
       format_pre fd a (print_opt d n v ++ rest) s = ((match v with [] => 3 | _ => 7 end), rest, s') /\
       pelems (pth s') = E ++ [n] /\ pcurr s' = 11 /\ valid s' = len v /\
-      (v <> [] -> post_read s' (len v) = Some v).
+      (v <> [] -> post_read s' (len v) = Some v) /\ pbin (pth s') = false.
   Proof.
     intros WN WV RD. unfold print_opt. rewrite <- !app_assoc. cbn [app].
     destruct (name_scan (aopt a) n (hws (d_mid1 d)) 61
@@ -157,7 +157,7 @@ Section Elements.
     rewrite P3, V3. destruct (path_add_name E (61 :: rev (hws (d_mid1 d))) n (pfirst (pth s)) true NC) as (p1 & PA & PE & PB).
     rewrite PA. zb. rewrite (invalidate_buf p1 PB), PE.
     set (s4 := mkPst _ _ _ _ _).
-    destruct (parse_data_value d v rest s4 (E ++ [n]) (pfirst p1) WV) as (s5 & E5 & Q1 & Q2 & Q3 & Q4 & Q5);
+    destruct (parse_data_value d v rest s4 (E ++ [n]) (pfirst p1) WV) as (s5 & E5 & Q1 & [Q2 QN] & Q3 & Q4 & Q5);
       [reflexivity|reflexivity|].
     rewrite E5. pose proof (len_nonneg v). zb.
     exists s5. subst s4 s3. cbn [pcurr] in Q3. rewrite pcurr_with_curr in Q3.
@@ -171,7 +171,7 @@ Section Elements.
   Lemma section_add_name s E J n F K cur rest :
     wfn (asect a) n -> pth s = mkPath E (J ++ rev n) (len (J ++ rev n)) F K true -> valid s = len n ->
     exists s', section_add (asect a) cur rest s = (PSection, rest, s') /\
-               pelems (pth s') = E ++ [n] /\ pbuf (pth s') = true /\ pcurr s' = cur.
+               pelems (pth s') = E ++ [n] /\ bufok (pth s') /\ pcurr s' = cur.
   Proof.
     intros [NC NE NF NL NK NLEN] HP HV. unfold section_add.
     assert (P1 : pth (with_curr s cur) = mkPath E (J ++ rev n) (len (J ++ rev n)) F K true) by now rewrite pth_with_curr.
@@ -187,7 +187,7 @@ Section Elements.
     exists s',
       format_pre fd a (lead d ++ n ++ hws (d_mid1 d) ++ (if d_brace_nl d then [10] ++ ws (d_mid2 d) else []) ++ 123 :: rest) s
       = (PSection, rest, s') /\
-      pelems (pth s') = E ++ [n] /\ pbuf (pth s') = true /\ pcurr s' = Z.lor PSection PName.
+      pelems (pth s') = E ++ [n] /\ bufok (pth s') /\ pcurr s' = Z.lor PSection PName.
   Proof.
     intros WN RD. destruct (d_brace_nl d).
     - (* brace on the next line *)
@@ -220,7 +220,7 @@ Section Elements.
   Lemma section_end dc rest s E :
     ready s E ->
     exists s', format_pre fd a (lead dc ++ hws (d_trail dc) ++ 125 :: rest) s = (PSectEnd, rest, s') /\
-               pelems (pth s') = E /\ pcurr s' = PSectEnd.
+               pelems (pth s') = E /\ pcurr s' = PSectEnd /\ pbin (pth s') = false.
   Proof.
     intros RD. unfold format_pre, nextvis.
     destruct (nv_lead dc (hws (d_trail dc) ++ 125 :: rest) s) as (s1 & S1 & E1). rewrite E1.
@@ -228,7 +228,7 @@ Section Elements.
     rewrite nv_vis by (reflexivity || lia). zb. change (sstart fd) with 123. zb.
     rewrite pre_loop_eq. unfold pre_body. cbn [fd fmt_default send]. zb.
     eexists. split; [reflexivity|]. autorewrite with pst.
-    destruct (same_trans _ _ _ S1 S2) as (A & _). rewrite A. destruct RD as (R1 & _). auto.
+    destruct (same_trans _ _ _ S1 S2) as (A & _). rewrite A. destruct RD as (R1 & _ & _ & (_ & RN) & _). repeat split; auto.
   Qed.
 
   (* ---- end of the text ---- *)
